@@ -16,6 +16,9 @@ addition, index, slice range and `copy_from_slice` of `ringbuf.rs`. Here:
   operation acts on `contents` as the corresponding operation of the byte queue (`qPush`, `qPop`):
   `step_refines`, `ring_refines_queue`.
 * `N = 0`: `zero_cap_*`.
+* The buffer calls of the BTP receive window (`accept_incoming`, `fetch_message`, `reset`) as whole
+  runs on the checked ring = the same on the byte list of the session model, no panic:
+  `acceptBuf_refines`, `fetchBuf_refines`, `bufStep_refines`, `bufRun_refines`.
 -/
 namespace Btp
 
@@ -774,6 +777,148 @@ theorem zero_cap_rest (k : Nat) :
     (Ring.new 0).clear = Ring.new 0 := by
   refine ⟨rfl, rfl, rfl, rfl, ?_, rfl, rfl, rfl⟩
   simp [pop, popLoop, Ring.new]
+
+end Ring
+
+/-! ## The buffer calls of the BTP receive window on the checked ring -/
+
+/-- slice lengths `< 2^64` (guaranteed by the Rust type system) -/
+def BufOp.Wf : BufOp → Prop
+  | .accept pfx payload => (pfx.getD []).length < USIZE ∧ payload.length < USIZE
+  | .fetch cap => cap < USIZE
+  | .reset => True
+
+namespace Ring
+
+theorem rep_length_le {n : Nat} {r : Ring} {q : List Nat} (h : Rep n r q) : q.length ≤ n := by
+  obtain ⟨hi, hn, hq⟩ := h
+  rw [← hq, ← hn, contents_length]; exact lenN_le hi
+
+theorem drain_refines {n : Nat} : ∀ (m : Nat) {r : Ring} {q : List Nat}, Rep n r q → m ≤ q.length →
+    ∃ r2, drain m r = .ok (some r2) ∧ Rep n r2 (q.drop m) := by
+  intro m
+  induction m with
+  | zero => intro r q h _; exact ⟨r, rfl, h⟩
+  | succ m ih =>
+    intro r q h hm
+    obtain ⟨hi, hn, hq⟩ := h
+    obtain ⟨r2, a, b, c, d⟩ := popByte_spec hi
+    cases q with
+    | nil => simp at hm
+    | cons x t =>
+      rw [hq] at a d
+      obtain ⟨r3, e, f⟩ := ih (r := r2) (q := t) ⟨b, c.trans hn, d⟩ (by simpa using hm)
+      exact ⟨r3, by simp only [drain, a, List.head?_cons]; exact e, by simpa using f⟩
+
+theorem acceptBuf_refines {n : Nat} {r : Ring} {q : List Nat} (h : Rep n r q) (pfx : Option (List Nat))
+    (payload : List Nat) (hp : (pfx.getD []).length < USIZE) (hd : payload.length < USIZE) :
+    (n - q.length < (pfx.getD []).length + payload.length → r.acceptBuf pfx payload = .ok none) ∧
+    (¬ n - q.length < (pfx.getD []).length + payload.length →
+      ∃ r2, r.acceptBuf pfx payload = .ok (some r2) ∧ Rep n r2 (qPush n (qPush n q (pfx.getD [])) payload)) := by
+  have hle := rep_length_le h
+  obtain ⟨hi, hn, hq⟩ := h
+  have hf : r.free = .ok (n - q.length) := by rw [free_ok hi, hn, ← hq, contents_length]
+  constructor
+  · intro hlt
+    simp only [acceptBuf, hf, hlt, if_true]
+  · intro hge
+    cases pfx with
+    | none =>
+      obtain ⟨r2, a, b, c, d⟩ := push_spec hi payload hd
+      refine ⟨r2, ?_, b, c.trans hn, ?_⟩
+      · simp only [acceptBuf, hf, hge, if_false, pushPfx, a]
+      · rw [d, hn, hq]; simp only [Option.getD_none]; rw [qPush_nil hle]
+    | some p =>
+      obtain ⟨r1, a1, b1, c1, d1⟩ := push_spec hi p hp
+      obtain ⟨r2, a, b, c, d⟩ := push_spec b1 payload hd
+      refine ⟨r2, ?_, b, (c.trans c1).trans hn, ?_⟩
+      · simp only [acceptBuf, hf, hge, if_false, pushPfx, a1, a]
+      · rw [d, d1, c1, hn, hq]; rfl
+
+theorem fetchBuf_refines {n : Nat} {r : Ring} {lo hi : Nat} {rest : List Nat} (h : Rep n r (lo :: hi :: rest))
+    (cap : Nat) (hc : cap < USIZE) (hl : lo + 256 * hi ≤ rest.length) :
+    ∃ r4, r.fetchBuf cap = .ok (some (r4, rest.take (min (lo + 256 * hi) cap))) ∧
+      Rep n r4 (rest.drop (lo + 256 * hi)) := by
+  obtain ⟨hi0, hn, hq⟩ := h
+  obtain ⟨r1, a1, b1, c1, d1⟩ := popByte_spec hi0
+  rw [hq] at a1 d1
+  obtain ⟨r2, a2, b2, c2, d2⟩ := popByte_spec b1
+  rw [d1] at a2 d2
+  simp only [List.drop_succ_cons, List.drop_zero, List.head?_cons] at a1 a2 d1 d2
+  obtain ⟨r3, a3, b3, c3, d3⟩ := pop_spec b2 (min (lo + 256 * hi) cap) (by omega)
+  rw [d2] at a3 d3
+  obtain ⟨r4, a4, b4⟩ := drain_refines (n := n) (lo + 256 * hi - min (lo + 256 * hi) cap) (r := r3)
+    (q := rest.drop (min (lo + 256 * hi) cap)) ⟨b3, ((c3.trans c2).trans c1).trans hn, d3⟩
+    (by simp only [List.length_drop]; omega)
+  refine ⟨r4, ?_, ?_⟩
+  · have hlen : (rest.take (min (lo + 256 * hi) cap)).length = min (lo + 256 * hi) cap := by
+      simp only [List.length_take]; omega
+    simp only [fetchBuf, a1, a2, a3, hlen, ne_eq, not_true_eq_false, if_false, a4]
+  · rw [List.drop_drop] at b4
+    have : min (lo + 256 * hi) cap + (lo + 256 * hi - min (lo + 256 * hi) cap) = lo + 256 * hi := by omega
+    rw [this] at b4
+    exact b4
+
+/-- one buffer operation of the receive window: if the session model's byte list can do it, the
+checked ring does the same without panicking -/
+theorem bufStep_refines {n : Nat} {r : Ring} {q : List Nat} (h : Rep n r q) (op : BufOp) (hw : op.Wf)
+    {q2 : List Nat} {o : BufOut} (hq : qBufStep n q op = some (q2, o)) :
+    ∃ r2, r.bufStep op = .ok (some (r2, o)) ∧ Rep n r2 q2 := by
+  cases op with
+  | accept pfx payload =>
+    obtain ⟨x, y⟩ := acceptBuf_refines h pfx payload hw.1 hw.2
+    simp only [qBufStep] at hq
+    split at hq
+    · rename_i hlt
+      cases hq
+      exact ⟨r, by simp only [bufStep, x hlt], h⟩
+    · rename_i hge
+      cases hq
+      obtain ⟨r2, a, b⟩ := y hge
+      exact ⟨r2, by simp only [bufStep, a], b⟩
+  | fetch cap =>
+    simp only [qBufStep] at hq
+    split at hq
+    · rename_i lo hi rest
+      split at hq
+      · rename_i hl
+        cases hq
+        obtain ⟨r4, a, b⟩ := fetchBuf_refines h cap hw hl
+        exact ⟨r4, by simp only [bufStep, a], b⟩
+      · cases hq
+    · cases hq
+  | reset =>
+    cases hq
+    obtain ⟨hi, hn, _⟩ := h
+    obtain ⟨a, b, c⟩ := clear_spec hi
+    exact ⟨r.clear, rfl, a, b.trans hn, c⟩
+
+/-- **The receive window's buffer, run over the real ring**: for every sequence of the buffer calls
+`RecvWindow` makes (`accept_incoming`: `free()` test, `push` of the length prefix, `push` of the
+payload; `fetch_message`: `pop_byte` ×2, `pop`, `pop_byte`…; `reset`: `clear`), whenever the byte
+list of the session model (`Model/Btp.lean`) can run it (no `fetch` on an incomplete message), the
+checked `RingBuf<N>` started from `new()` never panics and gives the same answers. -/
+theorem bufRun_refines (n : Nat) (hn : 0 < n) (hs : 2 * n ≤ USIZE) (ops : List BufOp) (hw : ∀ op ∈ ops, op.Wf)
+    (outs : List BufOut) (hq : qBufRun n [] ops = some outs) :
+    bufRun (Ring.new n) ops = .ok (some outs) := by
+  suffices h : ∀ (ops : List BufOp) (r : Ring) (q : List Nat) (outs : List BufOut), (∀ op ∈ ops, op.Wf) →
+      Rep n r q → qBufRun n q ops = some outs → bufRun r ops = .ok (some outs) from
+    h ops _ _ outs hw (rep_new n hn hs) hq
+  intro ops
+  induction ops with
+  | nil => intro r q outs _ _ h; simp only [qBufRun] at h; cases h; rfl
+  | cons op ops ih =>
+    intro r q outs hw h hrun
+    simp only [qBufRun] at hrun
+    split at hrun
+    · cases hrun
+    · rename_i q2 o hstep
+      split at hrun
+      · cases hrun
+      · rename_i os hrest
+        cases hrun
+        obtain ⟨r2, a, b⟩ := bufStep_refines h op (hw op List.mem_cons_self) hstep
+        simp only [bufRun, a, ih r2 q2 os (fun x hx => hw x (List.mem_cons_of_mem _ hx)) b hrest]
 
 end Ring
 end Btp
